@@ -233,6 +233,8 @@ def _one(item):
 REF_OPS = [("set", "s1"), ("set", "bx"), ("set", "rh"), ("disconnect", None), ("badreplace", "s1"), ("badreplace", "rh"),
            ("refby", "h0"), ("refby", "h2"), ("hset", "h0")]
 REF_VALS = {"s1": sig("s1"), "bx": bref("b1", "x"), "rh": pref("h1", "a")}
+# the same exploration on a bundle-valued port: bundle instance, anonymous bundle, reference to another instance's bundle port
+REF_VALS_T = {"s1": b("bA"), "bx": anon(x=sig("s1"), y=sig("vv")), "rh": pref("h1", "t")}
 
 
 def ref_histories(depth):
@@ -258,35 +260,47 @@ def ref_histories(depth):
     return out
 
 
-def ref_design(final):
-    """Design of the final mapping of a refs-history: final = dict(i=value|None, h0='ref'|'s2'|None, h2='ref'|None)."""
+def ref_design(final, mode="a"):
+    """Design of the final mapping of a refs-history: final = dict(i=value|None, h0='ref'|'s2'|None, h2='ref'|None).
+    mode "a": the subject port is the scalar port a; mode "t": the bundle-valued port t."""
     exts = dict([probe_ext(1), probe_ext(2)])
-    child = {"name": "Child1", "style": "class", "decls": [("port", "a", 1, "none"), ("inst", "pa", ("ext", "P1", {"k": 1}), [("a", sig("a"))])]}
     decls = []
-    for n in ("s1", "s2", "h1a", "da", "dh0", "dh2"):
-        decls.append(("sig", n, 1))
-        decls.append(probe("p_" + n, n, 1, 5))
-    decls += [("binst", "b1", "B1"), ("inst", "q_b1_x", ("ext", "P1", {"k": 8}), [("a", bref("b1", "x"))]), ("inst", "q_b1_y", ("ext", "P2", {"k": 9}), [("a", bref("b1", "y"))])]
-    decls.append(("inst", "h1", ("mod", "Child1"), [("a", sig("h1a"))]))
+    if mode == "a":
+        port, vals = "a", REF_VALS
+        child = {"name": "Child1", "style": "class", "decls": [("port", "a", 1, "none"), ("inst", "pa", ("ext", "P1", {"k": 1}), [("a", sig("a"))])]}
+        for n in ("s1", "s2", "h1a", "da", "dh0", "dh2"):
+            decls.append(("sig", n, 1))
+            decls.append(probe("p_" + n, n, 1, 5))
+        decls += [("binst", "b1", "B1"), ("inst", "q_b1_x", ("ext", "P1", {"k": 8}), [("a", bref("b1", "x"))]), ("inst", "q_b1_y", ("ext", "P2", {"k": 9}), [("a", bref("b1", "y"))])]
+        tie = {"h1": sig("h1a"), "s2": sig("s2"), "da": sig("da"), "dh0": sig("dh0"), "dh2": sig("dh2")}
+    else:
+        port, vals = "t", REF_VALS_T
+        child = {"name": "Child1", "style": "class", "decls": [("bport", "t", "B1", False, None),
+                 ("inst", "px", ("ext", "P1", {"k": 1}), [("a", bref("t", "x"))]), ("inst", "py", ("ext", "P2", {"k": 2}), [("a", bref("t", "y"))])]}
+        decls += [("sig", "s1", 1), ("sig", "vv", 2), probe("p_s1", "s1", 1, 5), probe("p_vv", "vv", 2, 5)]
+        for k, bn in enumerate(("bA", "bH1", "bS2", "bDa", "bDh0", "bDh2")):
+            decls += [("binst", bn, "B1"), ("inst", f"q_{bn}_x", ("ext", "P1", {"k": 10 + k}), [("a", bref(bn, "x"))]), ("inst", f"q_{bn}_y", ("ext", "P2", {"k": 20 + k}), [("a", bref(bn, "y"))])]
+        tie = {"h1": b("bH1"), "s2": b("bS2"), "da": b("bDa"), "dh0": b("bDh0"), "dh2": b("bDh2")}
+    decls.append(("inst", "h1", ("mod", "Child1"), [(port, tie["h1"])]))
     referenced = final.get("h0") == "ref" or final.get("h2") == "ref"
-    iconn = [("a", REF_VALS[final["i"]])] if final.get("i") else ([] if referenced else [("a", sig("da"))])
+    iconn = [(port, vals[final["i"]])] if final.get("i") else ([] if referenced else [(port, tie["da"])])
     decls.append(("inst", "i", ("mod", "Child1"), iconn))
-    h0 = [("a", pref("i", "a"))] if final.get("h0") == "ref" else [("a", sig("s2"))] if final.get("h0") == "s2" else [("a", sig("dh0"))]
-    h2 = [("a", pref("i", "a"))] if final.get("h2") == "ref" else [("a", sig("dh2"))]
+    h0 = [(port, pref("i", port))] if final.get("h0") == "ref" else [(port, tie["s2"])] if final.get("h0") == "s2" else [(port, tie["dh0"])]
+    h2 = [(port, pref("i", port))] if final.get("h2") == "ref" else [(port, tie["dh2"])]
     decls.append(("inst", "h0", ("mod", "Child1"), h0))
     decls.append(("inst", "h2", ("mod", "Child1"), h2))
     top = {"name": "Top", "style": "proc", "decls": decls}
-    return {"bundles": BUND, "exts": exts, "modules": {"Child1": child, "Top": top}, "top": "Top"}
+    return {"bundles": BUND, "exts": exts, "modules": {"Child1": child, "Top": top}, "top": "Top"}, tie
 
 
-def _ref_one(hist):
+def _ref_one(item):
     import hdl21 as h
     from ..build import build, mk_expr
 
-    start = ref_design(dict(i=None, h0=None, h2=None))
-    # start from a module in which i, h0, h2 are all unconnected
-    for d in start["modules"]["Top"]["decls"]:
-        pass
+    mode, hist = item
+    port = "a" if mode == "a" else "t"
+    vals = REF_VALS if mode == "a" else REF_VALS_T
+    start, tie = ref_design(dict(i=None, h0=None, h2=None), mode)
     top = start["modules"]["Top"]
     top["decls"] = [(d[0], d[1], d[2], []) if d[0] == "inst" and d[1] in ("i", "h0", "h2") else d for d in top["decls"]]
     try:
@@ -295,36 +309,37 @@ def _ref_one(hist):
         return dict(kind="harness", detail=short_exc(e))
     ns = {k[1]: v for k, v in built.objs.items() if k[0] == "Top"}
     ncs = {}
-    objs = {k: mk_expr(v, ns, ncs, start, built) for k, v in REF_VALS.items() if k != "rh"}
+    objs = {k: mk_expr(v, ns, ncs, start, built) for k, v in vals.items() if k != "rh"}
+    tieobj = {k: mk_expr(v, ns, ncs, start, built) for k, v in tie.items()}
     final = dict(i=None, h0=None, h2=None)
     i = ns["i"]
     try:
         for op in hist:
             if op[0] == "set":
-                v = objs[op[1]] if op[1] != "rh" else ns["h1"].a
-                i.a = v
+                v = objs[op[1]] if op[1] != "rh" else getattr(ns["h1"], port)
+                setattr(i, port, v)
                 final["i"] = op[1]
             elif op[0] == "disconnect":
-                i.disconnect("a")
+                i.disconnect(port)
                 final["i"] = None
             elif op[0] == "badreplace":
-                v = objs[op[1]] if op[1] != "rh" else ns["h1"].a
+                v = objs[op[1]] if op[1] != "rh" else getattr(ns["h1"], port)
                 try:
-                    i.replace("a", v)
+                    i.replace(port, v)
                     return dict(kind="op", detail="replace() of an unconnected port did not raise")
                 except KeyError:
                     pass
             elif op[0] == "refby":
-                ns[op[1]].a = i.a
+                setattr(ns[op[1]], port, getattr(i, port))
                 final[op[1]] = "ref"
             elif op[0] == "hset":
-                ns["h0"].a = ns["s2"]
+                setattr(ns["h0"], port, tieobj["s2"])
                 final["h0"] = "s2"
-            if set(i.conns) != ({"a"} if final["i"] else set()):
+            if set(i.conns) != ({port} if final["i"] else set()):
                 return dict(kind="conns", detail=f"after {op}: conns has {sorted(i.conns)}")
     except Exception as e:
         return dict(kind="op_raised", detail=short_exc(e))
-    fdesign = ref_design(final)
+    fdesign, _tie = ref_design(final, mode)
     try:
         rdev, rpart = refsem.R(fdesign)
     except refsem.Invalid:
@@ -333,11 +348,11 @@ def _ref_one(hist):
         # canonical completion on the real objects
         referenced = final["h0"] == "ref" or final["h2"] == "ref"
         if not final["i"] and not referenced:
-            i.a = ns["da"]
+            setattr(i, port, tieobj["da"])
         if final["h0"] is None:
-            ns["h0"].a = ns["dh0"]
+            setattr(ns["h0"], port, tieobj["dh0"])
         if final["h2"] is None:
-            ns["h2"].a = ns["dh2"]
+            setattr(ns["h2"], port, tieobj["dh2"])
         pkg = h.to_proto(built.top)
         odev, opart = observe.O_pkg(pkg, fdesign)
     except Exception as e:
@@ -390,28 +405,29 @@ def run(ctx):
             ctx.sample(dict(subject=kind, history=items[len(items) // 2][1]))
             ctx.sample(dict(subject=kind, history=items[-1][1]))
     # references to the subject's own port, taken before / after re-connections, dead references, failed operations
-    rh = ref_histories(4 if ctx.quick else 5)
+    rhs = ref_histories(4 if ctx.quick else 5)
+    rh = [("a", hh) for hh in rhs] + [("t", hh) for hh in (ref_histories(3) if ctx.quick else rhs)]
     res = ctx.pmap(_ref_one, rh, chunk=100)
-    for hh, r in zip(rh, res):
+    for (mode, hh), r in zip(rh, res):
         ctx.count(states=1, transitions=len(hh) + 2, traces_validated_against_impl=1)
-        ctx.fam("refs", histories=1)
+        ctx.fam("refs:" + mode, histories=1)
         if r == "invalid_final":
-            ctx.fam("refs", final_mapping_invalid=1)
+            ctx.fam("refs:" + mode, final_mapping_invalid=1)
             continue
         if r is None:
             ctx.outcome("agree:refs:" + str(len(hh)))
             continue
         ctx.outcome(r["kind"] + ":refs")
-        ctx.violation(dict(subject="refs", kind=r["kind"], replaced=",".join(sorted({o[0] for o in hh}))), dict(subject="refs", history=[list(o) for o in hh]), r)
+        ctx.violation(dict(subject="refs:" + mode, kind=r["kind"], replaced=",".join(sorted({o[0] for o in hh}))), dict(subject="refs:" + mode, history=[list(o) for o in hh]), r)
     ctx.extra.setdefault("depth", {})["refs"] = 4 if ctx.quick else 5
-    ctx.sample(dict(subject="refs", history=[list(o) for o in rh[len(rh) // 2]]))
+    ctx.sample(dict(subject="refs:" + rh[len(rh) // 2][0], history=[list(o) for o in rh[len(rh) // 2][1]]))
     ctx.assume("only histories whose completed final mapping the reference semantics calls valid are judged at the export level")
 
 
 def replay(body):
     c = body["case"]
-    if c["subject"] == "refs":
-        r = _ref_one([tuple(x) for x in c["history"]])
+    if c["subject"].startswith("refs"):
+        r = _ref_one((c["subject"].split(":")[1] if ":" in c["subject"] else "a", [tuple(x) for x in c["history"]]))
         print("replay:", r)
         return 0 if (r is None or isinstance(r, str)) else 1
     r = _one((c["subject"], [tuple(x) for x in c["history"]]))
